@@ -50,7 +50,7 @@ def project_result(tree, fl):
 
 def _pairs(args):
     pairs, flname, base = args
-    fl = flavours.make(flname)
+    fl = flavours.make(flname.split("+")[0], flname.endswith("+typed"))
     out = []
     k = 0
     for s0, s1 in pairs:
@@ -211,6 +211,10 @@ def run(prop: str, tier: str) -> int:
     run_pairs(rep, pairs, "str", "all pairs")
     wm = wrap_moves(sts if quick else labelled(rep, max_nodes=3, d=2, label="labelled<=3x2"))
     run_pairs(rep, wm + [(b, a) for a, b in wm], "str", "moves into a new two-level branch (and back)")
+    # TypedTree inputs (open finding KF-diff-typed: diff() builds a plain Tree and cannot copy typed nodes into it)
+    tp = [(dict(a, typed=True, knd=[1] * a["n"]), dict(b, typed=True, knd=[1] * b["n"]))
+          for a, b in [(core.norm_state(x), core.norm_state(y)) for x, y in pairs[1:40:6]]]
+    run_pairs(rep, tp, "str+typed", "typed inputs")
     rng = random.Random(seed)
     rp = []
     for _ in range(300 if quick else 6000):
